@@ -166,6 +166,7 @@ def run(R):
             ok = all(r is not None and 1 <= r <= b.nargs for r in roots) and names[2] == "current_time" and "dict" in (names[1] or "")
             R.ob("C12-R1", "same-inputs:" + nm, "the %s materialiser passes its own (sds, dict, current_time) parameters (passes %s)" % (nm, names),
                  ok, where=b.where(c.ln))
+    r3(R)
     # ---- R2
     impls = [b for b in prog.bodies.values() if b.self_adt == "shared::provenance::ExpirationProvenance" and b.r.get("impl_trait", "").endswith("Provenance")]
     bym = {b.name: b for b in impls}
@@ -238,3 +239,79 @@ def _returns(b, c):
         if pl["l"] == 0 and rv["rv"] == "use" and b.alias_root(rv["op"]) == b.alias_root(c.dest["l"]):
             return True
     return False
+
+
+def r3(R):
+    """tag-improvement re-triggering: an existing fact whose tag improved re-enters the next delta, with no further condition"""
+    prog = R.prog
+    R.rule("C12-R3", "re-trigger discipline: in the provenance round, whenever update_disjunction reports an improved tag for an already "
+                     "known fact, that fact is queued for the next delta and the round reports tag_changed - controlled by nothing else")
+    rounds = [b for b in prog.bodies.values() if (b.r.get("trait_item") or "").endswith("ProvenanceInferenceStrategy::infer_round") and b.crate == "datalog"]
+    R.floor("C12-R3", "provenance round implementations", len(rounds), 1)
+    for b in rounds:
+        R.saw(b)
+        upd = [c for c in b.calls() if c.name() == "update_disjunction"]
+        R.ob("C12-R3", "updates:" + b.short, "%s merges alternative derivations with update_disjunction" % b.short, len(upd) >= 1, where=b.where())
+        # the vector that becomes self.delta_improved
+        queue_roots = set()
+        for bb, i, pl, rv, s in b.assigns():
+            if pl["p"] and pl["p"][-1].get("n") == "delta_improved" and rv["rv"] == "use":
+                r = b.alias_root(rv["op"])
+                if r is not None:
+                    queue_roots.add(r)
+        pushes = [c for c in b.calls() if c.name() in ("push", "insert", "extend") and c.args and b.alias_root(c.args[0]) in queue_roots]
+        R.ob("C12-R3", "queues:" + b.short, "%s queues improved facts into the vector stored as delta_improved" % b.short, len(pushes) >= 1, where=b.where())
+        for u in upd:
+            # true edge of update_disjunction
+            tgt = None
+            for bb, t in b.terms():
+                if t["t"] == "switch" and F.op_local(t["discr"]) == u.dest["l"]:
+                    tgt = t["otherwise"]
+            if tgt is None:
+                R.ob("C12-R3", "improved-edge:" + b.short, "the outcome of update_disjunction is tested", False, where=b.where(u.ln))
+                continue
+            for pc in pushes:
+                if not (b.dominates(tgt, pc.bb)):
+                    continue
+                extra = []
+                for c in G.conditions(b, pc.bb):
+                    cb = c.get("bb")
+                    if cb is None or not (b.dominates(tgt, cb) or cb == tgt):
+                        continue
+                    if _is_known_fact_test(b, c):
+                        continue
+                    extra.append(c)
+                ok = not extra
+                R.ob("C12-R3", "unconditional:" + b.short, "once a known fact's tag improved, it is queued for the next delta without a further condition",
+                     ok, where=b.where(pc.ln), detail=None if ok else "extra condition(s) between the improvement test and the queueing: %s — an improved "
+                     "fact that is not re-triggered leaves stale (under-estimated) tags downstream" % [_cdesc(b, c) for c in extra])
+                # tag_changed is set on the same path
+                flags = [bb2 for bb2, i, pl, rv, s in b.assigns() if not pl["p"] and b.local_name(pl["l"]) == "tag_changed"
+                         and rv["rv"] == "use" and F.const_int(rv["op"]) == 1]
+                okf = any(b.dominates(f, pc.bb) or b.dominates(pc.bb, f) or f == pc.bb for f in flags)
+                R.ob("C12-R3", "flag:" + b.short, "the round reports tag_changed whenever it queues an improved fact", okf, where=b.where(pc.ln))
+
+
+def _is_known_fact_test(b, c):
+    """condition is (a copy of) `known_facts.contains(fact)` / the is_new flag"""
+    if c["kind"] == "call" and c["call"].name() == "contains":
+        root = b.alias_root(c["call"].args[0]) if c["call"].args else None
+        return root is not None and (b.local_name(root) or "") == "known_facts"
+    if c["kind"] == "other" and "local" in c:
+        l = c["local"]
+        for d in b.defs().get(l, []):
+            if d[0] == "assign" and d[3]["rv"] == "unop" and d[3]["op"] == "Not":
+                inner = G.describe_discr(b, d[3]["a"])
+                if inner["kind"] == "call" and inner["call"].name() == "contains":
+                    root = b.alias_root(inner["call"].args[0])
+                    return root is not None and (b.local_name(root) or "") == "known_facts"
+            if d[0] == "call" and d[2].name() == "contains":
+                root = b.alias_root(d[2].args[0])
+                return root is not None and (b.local_name(root) or "") == "known_facts"
+    return False
+
+
+def _cdesc(b, c):
+    if c["kind"] == "call":
+        return "%s(..) is %s" % (c["call"].name(), c["truth"])
+    return c["kind"]
